@@ -216,3 +216,11 @@ package stateless
 // save/load identity for every valid configuration: load = Default() then applyJSONConfig(saved)
 //@ lemma save_load_identity: forall m int, c int :: m > 0 && c > 0 ==> ite(ite(m != DefaultMaxPinQueueSize, m, 0) != 0, ite(m != DefaultMaxPinQueueSize, m, 0), DefaultMaxPinQueueSize) == m && ite(c != 0, c, DefaultConcurrentPins) == c
 //@   property C15
+
+// ---- C18: "shutting a component down while it is in use": the shutdown flag is only read and written with the
+// shutdown lock held, so that concurrent Shutdown calls run the teardown once ----
+//@ guards Tracker.shutdownMu: shutdown
+//@ func (spt *Tracker) Shutdown
+//@   property C18
+//@   opts own
+//@   modifies *
